@@ -373,15 +373,16 @@ static int Convert_mus2midi(uint8_t *in, uint32_t insize,
                 bit2 = (*cur++ >> 1) & 127;
                 break;
             case MUSEVENT_CHANNELMODE:
-                if (end - cur < 2) goto _end; /* truncated score */
+                if (end - cur < 1) goto _end; /* truncated score */
                 status |= 0xB0;
                 if (*cur >= sizeof(mus_midimap) / sizeof(mus_midimap[0])) {
                     /*_WM_ERROR_NEW("%s:%i: can't map %u to midi",
                                   __FUNCTION__, __LINE__, *cur);*/
                     goto _end;
                 }
+                /* a system event has a single data byte: the controller number */
+                bit2 = (*cur == 12) ? header.channels + 1 : 0x00;
                 bit1 = mus_midimap[*cur++];
-                bit2 = (*cur++ == 12) ? header.channels + 1 : 0x00;
                 break;
             case MUSEVENT_CONTROLLERCHANGE:
                 if (end - cur < 2) goto _end; /* truncated score */
